@@ -1,7 +1,7 @@
 /- Line-protocol handler for the formulation models and spec predicates of C15.
 
-   form.nodal <asis|patched|c?j?> || <analysis> || line || line …          nodal equations of the model
-   form.mesh  <asis|patched|e?i?j?> || <analysis> || line … || loops || n n n || n n n …   mesh equations
+   form.nodal x || <analysis> || line || line …          nodal equations of the model
+   form.mesh  <e0|e1> || <analysis> || line … || loops || n n n || n n n …   mesh equations
    form.cycles || <analysis> || line … || loops || …                   isSimpleCycle per loop
    form.eval || c c c … || const || x x x …                            Σ cᵢ·xᵢ + const  (spec: equation holds iff 0)
    ss.form <ccf|ocf> || b … || a …                                     realisation of the model
@@ -93,16 +93,13 @@ def handleForm (cmd : String) (variant : List String) (secs : List (List String)
       | .error msg => s!"error {msg}"
       | .ok e =>
         let cs := e.cpts.map (·.2)
-        -- one switch per proposed patch: c = constants orientation (F13, C15-b), e = edge identity (C15-c),
-        -- i = initial-condition sign (C15-d), j = impedances at s = jω in AC kinds (C15-g); "asis" / "patched" = all off / on
+        -- one switch is left: e1 / "patched" = components identified by graph edge (proposed patch for
+        -- the open finding C15-c), e0 / "asis" = by node names (code as it is)
         let v := (variant.head?).getD "asis"
-        let flag (ch : String) : Bool := v = "patched" || (v.splitOn (ch ++ "1")).length > 1
-        let pc := flag "c"
-        let pe := flag "e"
-        let pi := flag "i"
-        let sF : GQ := if flag "j" then an.s else (match an with | .ac w => w | _ => an.s)
+        let pe : Bool := v = "patched" || (v.splitOn "e1").length > 1
+        let sF : GQ := an.s
         if cmd = "form.nodal" then
-          match nodalEqs pc an.kind sF cs with
+          match nodalEqs an.kind sF cs with
           | none => "error unsupported"
           | some eqs =>
             " || ".intercalate (eqs.map (fun (k, f) =>
@@ -117,7 +114,7 @@ def handleForm (cmd : String) (variant : List String) (secs : List (List String)
               " ".intercalate (loops.map (fun l => toString (isSimpleCycle g l)))
             else
               " || ".intercalate (loops.map (fun l =>
-                match meshEq pe pi an.kind sF g loops l with
+                match meshEq pe an.kind sF g loops l with
                 | none => "error unsupported"
                 | some f => formStr (f.coeffs.map (fun p => (toString p.1, p.2))) f.const))
   | [] => "bad-op"
